@@ -886,6 +886,250 @@ def run_sessions(obs, repo, sessions, nshard):
     return res, ""
 
 
+# ------------------------------------------------------------------ importer histories
+# 2-4 configurations of one host process share ONE importer (LocalImporter / FSImporter over a directory of script
+# modules).  Every configuration keeps a VM whose main script imports the modules and defines handler functions; the
+# host calls the handlers later - after OTHER configurations have imported the same modules through the same importer.
+# A script module exposes the globals of its code as attributes, so everything a handler reaches THROUGH the module
+# object (helper.os, getattr(helper, "exec"), from helper import os) must stay inside the handler's own configuration.
+
+class ImpSession(Session):
+    def __init__(self, sid, importer, modules, prelude, eval_src, override, extra, configs, probes, events):
+        Session.__init__(self, sid, "session-importer-" + importer, False, [], override, extra, configs, probes)
+        self.importer, self.modules, self.prelude, self.eval_src, self.events = importer, modules, prelude, eval_src, events
+
+    def go_json(self):
+        return json.dumps({"id": self.id, "importer": self.importer,
+                           "modules": [{"name": n, "source": src} for n, src in self.modules],
+                           "prelude": self.prelude, "eval_src": self.eval_src,
+                           "override": [{"name": n, "kind": k} for n, k in self.override],
+                           "extra": [{"name": n, "kind": k} for n, k in self.extra],
+                           "probes": [{"pre": p["pre"], "expr": p["expr"]} for p in self.probes],
+                           "configs": self.steps, "events": self.events})
+
+    def step_text(self, k):
+        r = self.steps[k]["route"]
+        opts = ", ".join(self.option_text(k) + ["WithImporter(SHARED)"])
+        if r == "evalvm":
+            return "configuration %d: m%d := vm.NewEmpty(); risor.Eval(ctx, MAIN, %s, WithVM(m%d))" % (k + 1, k + 1, opts, k + 1)
+        return ("configuration %d: cfg := risor.NewConfig(%s); m%d := vm.New(compile(MAIN, cfg.CompilerOpts()), cfg.VMOpts()...); "
+                "m%d.Run(ctx)" % (k + 1, opts, k + 1, k + 1))
+
+    def event_text(self, i):
+        ev = self.events[i]
+        c = ev["cfg"]
+        if ev["op"] == "load":
+            return "load " + self.step_text(c)
+        if ev["op"] == "eval":
+            return "risor.Eval(ctx, %r, %s) [options of configuration %d]" % (
+                self.eval_src, ", ".join(self.option_text(c) + ["WithImporter(SHARED)"]), c + 1)
+        return "call every handler of configuration %d: m%d.Call(ctx, m%d.Get(\"c11p<i>\"), nil)" % (c + 1, c + 1, c + 1)
+
+    def describe(self):
+        return {"id": self.id, "group": self.group,
+                "SHARED": "one importer.New%sImporter over a directory with the modules below, given to every configuration"
+                          % ("FS" if self.importer == "fs" else "Local"),
+                "modules": {n + ".risor": src for n, src in self.modules},
+                "MAIN": self.prelude + "\nfunc c11p<i>() { <statements>; return <script i> }  (one handler per script)",
+                "history": ["%d. %s" % (i + 1, self.event_text(i)) for i in range(len(self.events))]}
+
+
+def gen_imp_sessions(rng, base, tier):
+    names1 = base.names(1)
+    okname = lambda nm: nm != "getattr" and all(IDENT.match(x) and x not in KEYWORDS for x in nm.split("."))
+    dotted = [n for n in names1 if "." in n and okname(n)]
+    tops = [n for n in names1 if "." not in n and okname(n)]
+    topmods = [n for n in tops if base.lookup(n) in base.mods]
+    out = []
+
+    def shuffle(xs):
+        xs = list(xs)
+        for i in range(len(xs) - 1, 0, -1):
+            j = rng.below(i + 1)
+            xs[i], xs[j] = xs[j], xs[i]
+        return xs
+
+    nsess = 160 if tier == "quick" else 2400
+    for si in range(nsess):
+        importer = "fs" if si % 3 == 2 else "local"
+        pool = []
+        want = 2 + rng.below(3)
+        while len(pool) < want:
+            nm = rng.choice(dotted) if rng.chance(3, 5) else rng.choice(topmods) if rng.chance(1, 2) else rng.choice(tops)
+            if nm not in pool:
+                pool.append(nm)
+        override = [(nm, rng.choice(["new", "int"])) for nm in pool if rng.chance(1, 2)]
+        extra = [("fresh_extra_0", "new")] if rng.chance(1, 3) else []
+        ncfg = 2 + rng.below(3)
+        configs = []
+        for k in range(ncfg):
+            opts = []
+            if not (k == rng.below(ncfg) and rng.chance(1, 2)):          # (some histories hold the plain configuration)
+                dn = [nm for nm in pool if rng.chance(1, 3)]
+                if dn:
+                    if len(dn) == 1 or rng.chance(1, 2):
+                        opts += [{"op": "without", "names": [n], "idx": []} for n in dn]
+                    else:
+                        opts.append({"op": "without_many", "names": dn, "idx": []})
+                for i in range(len(override)):
+                    if override[i][0] not in dn and rng.chance(1, 3):
+                        opts.append({"op": "override", "names": [], "idx": [i]})
+                if rng.chance(1, 10):
+                    opts.append({"op": "nodefaults", "names": [], "idx": []})
+                if extra and rng.chance(1, 2):
+                    opts.append({"op": rng.choice(["global", "globals"]), "names": [], "idx": [0]})
+                opts = shuffle(opts)
+            configs.append({"route": rng.choice(["vm", "vm", "evalvm"]), "opts": opts})
+        if len(set(json.dumps(c["opts"], sort_keys=True) for c in configs)) == 1:
+            # the configurations of a history differ: one of them denies a name of the pool
+            configs[rng.below(ncfg)]["opts"] = [{"op": "without", "names": [pool[0]], "idx": []}]
+        # the host's script modules
+        mname = rng.choice(["helper", "shared", "kit", "lib/tools"])
+        mident = mname.split("/")[-1]
+        reach = sorted(set(nm.split(".")[0] for nm in pool))
+        msrc = "func greet(name) { return \"hello \" + name }\n" + "".join("func reach_%s() { return %s }\n" % (r, r) for r in reach)
+        modules = [(mname, msrc)]
+        alias = mident if rng.chance(2, 3) else "hm"
+
+        def imp_stmt(bind):
+            """the import statement that binds the host's module to the name bind"""
+            if "/" in mname:
+                par, leaf = mname.rsplit("/", 1)
+                return "from %s import %s" % (par.replace("/", "."), leaf) + ("" if bind == leaf else " as " + bind)
+            return "import %s" % mname + ("" if bind == mname else " as " + bind)
+        prelude = imp_stmt(alias)
+        outer = rng.chance(1, 2)
+        if outer:
+            modules.append(("outer", "%s\nfunc inner() { return %s }\n" % (imp_stmt(mident), mident)))
+            prelude += "\nimport outer"
+        eval_src = "%s\n%s.greet(\"once\")" % (imp_stmt(mident), mident)
+        probes, seen = [], set()
+
+        def add(pre, expr, path):
+            if expr and (pre, expr) not in seen and len(probes) < 34:
+                seen.add((pre, expr))
+                probes.append({"pre": pre, "expr": expr, "src": (pre + "; " if pre else "") + expr, "path": path})
+
+        def forms(parts):
+            """access paths to the global parts[0] (and on to its members) THROUGH the script module"""
+            path = ".".join(parts)
+            tail = "".join("." + x for x in parts[1:])
+            add("", "%s.%s" % (alias, path), path)
+            g = alias
+            for x in parts:
+                g = 'getattr(%s, "%s")' % (g, x)
+            add("", g, path)
+            if len(parts) > 1:
+                add("", 'getattr(%s.%s, "%s", "absent")' % (alias, ".".join(parts[:-1]), parts[-1]), path)
+            add("from %s import %s as c11x" % (mname.replace("/", "."), parts[0]), "c11x" + tail, path)
+            add(imp_stmt("c11y"), "c11y." + path, path)
+            add("", "%s.reach_%s()%s" % (alias, parts[0], tail), path)
+            if outer:
+                add("", "outer.%s.%s" % (mident, path), path)
+                add("", "outer.inner().%s" % path, path)
+        add("", alias, "")
+        for nm in pool:
+            parts = nm.split(".")
+            forms(parts)
+            add("", "%s.%s == %s" % (alias, parts[0], parts[0]), parts[0])
+            if len(parts) > 1:
+                add("", "%s.%s" % (alias, parts[0]), parts[0])
+            tgt = base.lookup(nm)
+            alts = [p for p in base.paths_to(tgt, 1, 3) if p != parts and all(IDENT.match(x) and x not in KEYWORDS for x in p)] if tgt else []
+            for _ in range(2):
+                if alts:
+                    ap = alts.pop(rng.below(len(alts)))
+                    add("", "%s.%s" % (alias, ".".join(ap)), ".".join(ap))
+        for n, _ in extra:
+            add("", "%s.%s" % (alias, n), n)
+        for _ in range(2):
+            nm = rng.choice(dotted)
+            add("", "%s.%s" % (alias, nm), nm)
+        # the history: loads, calls and one-shot evaluations interleaved; at the end every kept VM is called once more
+        events, loaded, todo = [], [], shuffle(range(ncfg))
+        while todo:
+            if not loaded or rng.chance(1, 2):
+                c = todo.pop()
+                events.append({"op": "load", "cfg": c})
+                loaded.append(c)
+            elif rng.chance(1, 4):
+                events.append({"op": "eval", "cfg": rng.below(ncfg)})
+            else:
+                events.append({"op": "call", "cfg": rng.choice(loaded)})
+        if rng.chance(1, 3):
+            events.append({"op": "eval", "cfg": rng.below(ncfg)})
+        for c in shuffle(loaded):
+            events.append({"op": "call", "cfg": c})
+        out.append(ImpSession("I%d" % si, importer, modules, prelude, eval_src, override, extra, configs, probes, events))
+    return out
+
+
+def judge_imp_session(s, g, base, regnames):
+    """-> (why, nontrivial marks)"""
+    why, marks = [], set()
+    if g.get("problem"):
+        return ["harness could not observe: " + g["problem"]], marks
+    for ev in g.get("evals") or []:
+        i, rest = ev.split(":", 1)
+        a, b2 = rest.rsplit("|", 1)
+        if a != b2:
+            why.append("event %d [%s] gives %s, but %s with an importer of its own" % (int(i) + 1, s.event_text(int(i)), a, b2))
+    for co in g.get("calls") or []:
+        i, c = co["event"], co["cfg"]
+        nd, dn, ov = s.step_config(c)
+        others = [e["cfg"] for e in s.events[:i] if e["op"] in ("load", "eval") and e["cfg"] != c
+                  and json.dumps(s.steps[e["cfg"]]["opts"], sort_keys=True) != json.dumps(s.steps[c]["opts"], sort_keys=True)]
+        tag = "event %d of the history [%s; options %s]" % (i + 1, s.event_text(i), ", ".join(s.option_text(c)) or "none")
+        if co.get("load") != co.get("iso_load"):
+            why.append("%s: loading the main script gave %s, but %s with an importer of its own" % (tag, co.get("load"), co.get("iso_load")))
+        forbidden = {}
+        for nm in dn + ov:
+            t = base.lookup(nm) if nm in regnames else None
+            if t is not None:
+                forbidden[t] = "the object registered under the %s name %r" % ("denied" if nm in dn else "overridden", nm)
+        for p, po in zip(s.probes, co.get("probes") or []):
+            r, iso, stale = po["res"], po.get("iso"), po.get("stale", 0)
+            if r.startswith("sig:") and int(r[4:]) in forbidden:
+                why.append("%s: handler %r obtains %s (object %s)" % (tag, p["src"], forbidden[int(r[4:])], r))
+            if nd and r.startswith("sig:"):
+                why.append("%s: handler %r obtains the default object %s although default globals are disabled" % (tag, p["src"], r))
+            if r != iso:
+                why.append("%s: handler %r gives %s, but %s when the events of this configuration run alone (an importer and a VM "
+                           "of its own)%s" % (tag, p["src"], r, iso,
+                                              "; the object was first obtained by configuration %d" % stale if stale else ""))
+            elif po.get("mem") != po.get("iso_mem"):
+                why.append("%s: handler %r gives a module (%s) whose attributes (two levels) differ from those it has when the events "
+                           "of this configuration run alone: fingerprint %s, alone %s" % (tag, p["src"], r, po.get("mem"), po.get("iso_mem")))
+            elif stale:
+                why.append("%s: handler %r obtains the very %s that a handler of configuration %d obtained first: two "
+                           "configurations share a mutable object" % (tag, p["src"], r, stale))
+        if others and any(po["res"].split(":")[0] in ("sig", "new", "other") for po in co.get("probes") or []):
+            marks.add(("importer-call-after-other-configuration", s.id, i))
+    why.sort(key=lambda w: 0 if "obtains the object registered" in w else 1)      # (stable: reachability of a denied object first)
+    return why, marks
+
+
+def run_imp_sessions(obs, repo, sessions, nshard):
+    lines = [s.go_json() for s in sessions]
+    shards = [lines[i::nshard] for i in range(nshard)]
+
+    def one(i):
+        if not shards[i]:
+            return 0, "", ""
+        return C.run([obs, "impsessions", repo], input=("\n".join(shards[i]) + "\n").encode(), timeout=3000)
+    with ThreadPoolExecutor(max_workers=nshard) as ex:
+        outs = list(ex.map(one, range(nshard)))
+    res = {}
+    for rc, o, e in outs:
+        if rc != 0:
+            return None, "c11obs impsessions failed: rc=%s %s" % (rc, e[-1500:])
+        for line in o.split("\n"):
+            if line.strip():
+                j = json.loads(line)
+                res[j["id"]] = j
+    return res, ""
+
+
 # ------------------------------------------------------------------ running both sides
 
 def run_go(obs, repo, lines, work, nshard):
@@ -1057,6 +1301,17 @@ def _body(res, tier, repo, obs, model, base, base_text, hash_equal, aliases, pro
     smo, err = run_model(model, basefile, [s.model_line(k) for s in sessions for k in range(len(s.steps))], nshard)
     if smo is None:
         res.violation({"property": PROP, "kind": "harness-run-failed", "stage": "model_globals (sessions)", "log": err}, nofail=True, tag="run")
+        return
+
+    imps = gen_imp_sessions(rng, base, tier)
+    igo, err = run_imp_sessions(obs, repo, imps, nshard)
+    if igo is None:
+        res.violation({"property": PROP, "kind": "harness-run-failed", "stage": "c11obs impsessions", "log": err}, nofail=True, tag="run")
+        return
+    imo, err = run_model(model, basefile, [s.model_line(k) for s in imps for k in range(len(s.steps))], nshard)
+    if imo is None:
+        res.violation({"property": PROP, "kind": "harness-run-failed", "stage": "model_globals (importer histories)", "log": err},
+                      nofail=True, tag="run")
         return
 
     stable = {n for n, info in base.nodes.items() if info[0]}
@@ -1320,6 +1575,43 @@ def _body(res, tier, repo, obs, model, base, base_text, hash_equal, aliases, pro
         if groups[sn.group] <= 2:
             session_samples.append({"case": sn.describe(), "scripts": [p["src"] for p in sn.probes][:8],
                                     "step_results": [[po["res"] for po in (so.get("probes") or [])][:8] for so in g.get("steps") or []]})
+    # ---------------- importer histories
+    imp_stats = {"calls": 0, "calls_after_another_configuration_imported_reaching_objects": 0,
+                 "calls_on_a_main_script_that_did_not_load": 0, "handler_results_that_are_objects": 0}
+    cov["importer_histories"] = imp_stats
+    for sn in sorted(imps, key=lambda x: len(x.events)):
+        g = igo.get(sn.id)
+        groups[sn.group] = groups.get(sn.group, 0) + 1
+        if g is None:
+            corr.append({"stage": "run", "case": sn.describe(), "why": "missing output of c11obs impsessions"})
+            continue
+        why, marks = judge_imp_session(sn, g, base, regnames)
+        nontrivial |= marks
+        for co in g.get("calls") or []:
+            imp_stats["calls"] += 1
+            imp_stats["calls_after_another_configuration_imported_reaching_objects"] = len([m for m in nontrivial if m[0].startswith("importer-")])
+            imp_stats["calls_on_a_main_script_that_did_not_load"] += co.get("load") != "ok"
+            imp_stats["handler_results_that_are_objects"] += len([1 for po in co.get("probes") or [] if po["res"].split(":")[0] in ("sig", "new", "other")])
+        evals += sum(2 * len(co.get("probes") or []) for co in g.get("calls") or [])
+        if why:
+            oracle_viol.append({"case": sn.describe(), "why": why[:12], "imp_session": json.loads(sn.go_json()),
+                                "scripts": [p["src"] for p in sn.probes],
+                                "impl": {"calls": [{"event": co["event"] + 1, "configuration": co["cfg"] + 1,
+                                                    "differing": [dict(po, script=p["src"]) for p, po in zip(sn.probes, co.get("probes") or [])
+                                                                  if po["res"] != po.get("iso") or po.get("mem") != po.get("iso_mem")
+                                                                  or po.get("stale")][:8]}
+                                                   for co in g.get("calls") or []]}})
+        for k, env in enumerate(g.get("envs") or []):
+            mr = imo.get("%s~%d" % (sn.id, k))
+            if mr is None:
+                corr.append({"stage": "importer-session-model", "case": sn.describe(), "why": "no model output for configuration %d" % (k + 1)})
+            elif sorted(env or []) != mr["env"]:
+                corr.append({"stage": "importer-session-env", "case": sn.describe(), "configuration": k + 1, "options": sn.option_text(k),
+                             "differences": sorted(set(env or []) ^ set(mr["env"]))[:6]})
+        if groups[sn.group] <= 1:
+            calls = g.get("calls") or []
+            session_samples.append({"case": sn.describe(), "scripts": [p["src"] for p in sn.probes][:8],
+                                    "call_results": [[po["res"] for po in (co.get("probes") or [])][:8] for co in calls[:4]]})
     samples += session_samples
     cov["session_known_class_hits"] = len(vm_known)
     if vm_known:
@@ -1367,11 +1659,21 @@ def _body(res, tier, repo, obs, model, base, base_text, hash_equal, aliases, pro
                    "equal, no result may be the object registered under a name the step denies / overrides, no module or builtin "
                    "may be the very object an earlier step obtained, the host's map (names, values, members of its modules) must "
                    "be as the host made it, a kept Config must not change. "
+                   "%d IMPORTER HISTORIES: 2-4 configurations share ONE importer (LocalImporter / FSImporter over a directory of "
+                   "script modules, one of which may import the other); every configuration keeps a VM (vm.New + Run, or vm.NewEmpty "
+                   "+ risor.Eval WithVM) whose main script imports the modules and defines one handler per access script; loads, "
+                   "one-shot risor.Eval of other configurations and handler calls (VirtualMachine.Call) are interleaved, and every "
+                   "kept VM is called again at the end. Handlers reach host globals THROUGH the module object (attribute chain, "
+                   "getattr, from-import, import-as inside the handler, the module's own functions, the nested module, __module__ "
+                   "back-references, == with the global). Every call is compared with the same configuration's events run ALONE "
+                   "(importer and VM of its own): equal results, equal two-level attribute fingerprint of every module obtained, no "
+                   "object of a denied / overridden name, no module or builtin that another configuration's handler obtained first. "
                    "Non-trivial = distinct (deny|override, name) pairs whose name was registered before configuration, reused "
                    "sub-lists, assembled modules, steps of histories whose option lists differ." % (
                        len(names1), groups.get("subset", 0), groups.get("composed", 0),
                        groups.get("assembled", 0) + groups.get("assembled-foreign", 0),
-                       groups.get("session-map", 0) + groups.get("session-vm", 0)))
+                       groups.get("session-map", 0) + groups.get("session-vm", 0),
+                       groups.get("session-importer-local", 0) + groups.get("session-importer-fs", 0)))
     cov["samples"] = samples
     cov["input_distribution"] = groups
     cov["correspondence"] = {"cases": len(cases), "differences": len(corr), "graph_nodes": len(base.nodes),
@@ -1391,6 +1693,8 @@ def _body(res, tier, repo, obs, model, base, base_text, hash_equal, aliases, pro
         "capability aliases (distinct builtins wrapping one Go function, e.g. os.getenv / getenv) are reported, not judged",
         "histories never deny / override a member of a module the HOST supplies (Config edits such a module object in place; "
         "the property's independence clause speaks of default globals)",
+        "importer histories: the host gives its importer the names of every global any configuration of the history can "
+        "provide (as the default configuration's names in the repository's examples); module files are read-only during a history",
         "histories: objects are named by signature (kind, description, Go function, module name) - exact because no two objects "
         "of the default configuration share a signature (checked: DUPSIG lines of c11obs base)",
     ]
@@ -1442,6 +1746,10 @@ def replay(data):
     if not obs:
         print(err)
         return 2
+    if data.get("imp_session"):
+        rc, o, e = C.run([obs, "impsessions", repo_dir()], input=(json.dumps(data["imp_session"]) + "\n").encode())
+        print(o, e)
+        return 0
     if data.get("session"):
         rc, o, e = C.run([obs, "sessions", repo_dir()], input=(json.dumps(data["session"]) + "\n").encode())
         print(o, e)
